@@ -24,3 +24,4 @@ open Verif.Props.C04
 #print axioms bg_position_layer_ok
 #print axioms bg_position_ok
 #print axioms keepcss2_no_exponent
+#print axioms border_color_ok
